@@ -87,6 +87,26 @@ Theorem C10_rset_index_partial : forall d rs line n flg idx g c, rset_find_d d r
 Proof. exact rset_index. Qed.
 Print Assumptions C10_rset_index_partial.
 
+(* C10_rset_index, the structural half: for every pattern set that passes the executable check rset_shape (the
+   combined pattern is parsed completely into one outer group around the alternation of one wrapper group per
+   non-NULL pattern, and each wrapper contains re_groupcount p groups) and that rset_make accepts: the compiled tree
+   is the outer group 1 around the alternation; the wrapper of the i-th non-NULL pattern is the group numbered grp[i]
+   (the non-negative entries of grp[0..n-1], in order), it contains exactly setgrpcnt[i] groups and they are numbered
+   grp[i]+1 ... in pre-order (rnode_grpnum); grpcnt = grp[n] is one more than the number of groups of the tree.
+   Together with C10_rset_index_partial: the index rset_find reports is that of an alternative whose OWN wrapper group
+   took part in the match, and the groups handed back are that alternative's own.
+   The hypothesis is decidable; tools/props/c10.py evaluates it (model request S) for every generated grammatical set and
+   the corpus and reports a set that fails it.  It cannot be dropped on the present parser: patterns that the parser
+   truncates silently (`(a)(b{3,1})`, `x(|)`, `a)(b`) are accepted by rset_make and fail it (ReGroups.rset_shape_examples;
+   open, fixes/C11-bad-repeat-rejected.patch).  Before fix f534655 `[a[*](x)` and {`[[:space:]()]+`, `y`} failed it too. *)
+Theorem C10_rset_index : forall res flg rs, rset_shape res = true -> rset_make res flg = Ok (Some rs) ->
+  exists body, tree (rs_prog rs) = NGrp body 1 1 1 /\
+    wraps body (somes res) (map Z.to_nat (filter nonneg (firstn (rs_n rs) (rs_grp rs)))) /\
+    map snd (filter (fun zs => nonneg (fst zs)) (combine (firstn (rs_n rs) (rs_grp rs)) (rs_setgrpcnt rs))) = map re_groupcount (somes res) /\
+    rs_grpcnt rs = 1 + ngroups (tree (rs_prog rs)) /\ nth (rs_n rs) (rs_grp rs) 0%Z = Z.of_nat (rs_grpcnt rs).
+Proof. exact rset_index_full. Qed.
+Print Assumptions C10_rset_index.
+
 (* the documented backtracking depth is a constant of the specification; the engine's limit is generated *)
 Theorem C10_documented_depth : (256 <= NDEPT)%Z.
 Proof. exact documented_depth. Qed.
